@@ -113,9 +113,9 @@ def parse_output(out):
         if any("unwinding assertion" in f["desc"] for f in r["failed"]):
             r["status"] = "undecided"
             r["reason"] = "unwinding assertion failed (bound too small for this code)"
-        elif any(k in out for k in ("CBMC failed", "out of memory", "std::bad_alloc")):
+        elif any(k in out for k in ("CBMC failed", "out of memory", "std::bad_alloc")) or not r["failed"] or "Status: ERROR" in out:
             r["status"] = "undecided"
-            r["reason"] = "CBMC resource failure"
+            r["reason"] = "CBMC resource failure / solver error (no failed check reported)"
         else:
             r["status"] = "fail"
     else:
